@@ -122,7 +122,10 @@ def line_to_circle(line_point, line_direction, center, radius, normal):
 
     m0_squared = np.dot(
         line_direction_cross_normal, line_direction_cross_normal)
-    if m0_squared > 0.0:
+    # The squared sine of the angle between unit line direction and normal is
+    # only a rounding error (< 1e-24) if both are parallel. The general case
+    # divides by it, so these lines have to be handled as exactly parallel.
+    if m0_squared > 1e-24:
         closest_point_line, closest_point_circle = _case_line_and_normal_not_parallel(
             line_point, line_direction, center, radius, normal,
             m0_squared, line_direction_cross_normal,
